@@ -445,6 +445,15 @@ theorem C10_acc_bestChecksums_secure (a b : List Hash)
   · exact Or.inl (ha h hm)
   · exact Or.inr (hb h hm)
 
+/-- `ByHashPath`: for an index at `dir/name` the by-hash location is
+    `dir/by-hash/<ByHash>/<hash>` -/
+theorem C10_acc_byHashPath (dir : List Bytes) (name byHash hash : Bytes)
+    (hd : ∀ c ∈ dir, PlainComp c) (hn : PlainComp name) :
+    byHashPath (canon (dir ++ [name])) byHash hash
+      = canon dir ++ Bytes.ofString "/by-hash/" ++ byHash ++ [47] ++ hash := by
+  unfold byHashPath
+  rw [dir_canon_snoc hd hn]
+
 /-- the on-demand relationship accessors: a field holding any legal rendering of a
     relationship AST gives the structure the AST denotes (via C04_parse_render) -/
 theorem C10_acc_optionalDependency (p : Paragraph) (field : Bytes) (d : Spec.Dependency.SDep)
